@@ -18,6 +18,9 @@ Contains the Decoder Loop Filtering related functions*/
 
 #include "EbSvtAv1Dec.h"
 #include "EbDecHandle.h"
+#ifdef SVT_AV1_VERIF
+#include "EbVerifHooks.h"
+#endif
 #include "EbObuParse.h"
 #include "EbDecUtils.h"
 #include "EbDeblockingCommon.h"
@@ -727,6 +730,9 @@ void dec_loop_filter_row(EbDecHandle *dec_handle_ptr, EbPictureBufferDesc *recon
         /* Top-Right Sync*/
         if (y_sb_index) {
             while (*sb_lf_completed_in_prev_row < MIN((x_sb_index + 2), pic_width_in_sb - 1))
+#ifdef SVT_AV1_VERIF
+                SVT_VERIF_SPIN(sb_lf_completed_in_prev_row)
+#endif
                 ;
         }
         /*LF function for a SB*/
@@ -744,6 +750,9 @@ void dec_loop_filter_row(EbDecHandle *dec_handle_ptr, EbPictureBufferDesc *recon
                            sb_info->sb_delta_lf);
         /* Update Top-Right Sync*/
         *sb_lf_completed_in_row = x_sb_index;
+#ifdef SVT_AV1_VERIF
+        SVT_VERIF_SYNC_STORE(sb_lf_completed_in_row);
+#endif
     }
 }
 
